@@ -1,14 +1,381 @@
 //! C20 — the CLI writes what the library writes and fails loudly otherwise.
 
+use super::*;
+use crate::util::hexbytes;
 use serde::{Deserialize, Serialize};
+use std::io::Read;
+use std::process::{Command, Stdio};
+use std::time::{Duration, Instant};
 
 #[derive(Serialize, Deserialize, Clone, Debug, PartialEq)]
+pub struct FileSpec {
+    /// false: the path is given on the command line but no such file exists
+    pub exists: bool,
+    #[serde(with = "hexbytes")]
+    pub content: Vec<u8>,
+}
+
+#[derive(Serialize, Deserialize, Clone, Debug, PartialEq, Default)]
 pub struct CliCase {
-    pub args: Vec<String>,
+    pub cmd: String,
+    pub vcodec: Option<String>,
+    pub width: Option<u32>,
+    pub height: Option<u32>,
+    pub fps: Option<String>,
+    pub acodec: Option<String>,
+    pub sample_rate: Option<u32>,
+    pub channels: Option<u8>,
+    pub title: Option<String>,
+    pub language: Option<String>,
+    pub json: bool,
+    pub verbose: bool,
+    pub video: Option<FileSpec>,
+    pub audio: Option<FileSpec>,
+    pub info: Option<FileSpec>,
+    /// what the generator intended: "valid" | "invalid:<reason>" | "arbitrary"
+    pub intent: String,
 }
 
 impl CliCase {
     pub fn brief(&self) -> String {
-        format!("muxide {}", self.args.join(" "))
+        format!(
+            "muxide {} vcodec={:?} {}x{} fps={:?} acodec={:?} rate={:?} ch={:?} title={} lang={:?} json={} verbose={} video={:?} audio={:?} info={:?} [{}]",
+            self.cmd,
+            self.vcodec,
+            self.width.map(|x| x.to_string()).unwrap_or("-".into()),
+            self.height.map(|x| x.to_string()).unwrap_or("-".into()),
+            self.fps,
+            self.acodec,
+            self.sample_rate,
+            self.channels,
+            self.title.is_some(),
+            self.language,
+            self.json,
+            self.verbose,
+            self.video.as_ref().map(|f| (f.exists, f.content.len())),
+            self.audio.as_ref().map(|f| (f.exists, f.content.len())),
+            self.info.as_ref().map(|f| (f.exists, f.content.len())),
+            self.intent
+        )
     }
+}
+
+fn v(sig: String, detail: String) -> Violation {
+    Violation::new("C20", sig, detail)
+}
+
+pub fn cli_bin() -> String {
+    std::env::var("VH_CLI_BIN").unwrap_or_else(|_| "/verif/.target/cli/debug/muxide".to_string())
+}
+
+pub struct Ran {
+    pub code: Option<i32>,
+    pub stdout: String,
+    pub stderr: String,
+    pub timed_out: bool,
+}
+
+pub fn spawn(args: &[String], timeout: Duration) -> std::io::Result<Ran> {
+    let mut child = Command::new(cli_bin()).args(args).stdin(Stdio::null()).stdout(Stdio::piped()).stderr(Stdio::piped()).env("NO_COLOR", "1").spawn()?;
+    let start = Instant::now();
+    let mut timed_out = false;
+    loop {
+        match child.try_wait()? {
+            Some(_) => break,
+            None => {
+                if start.elapsed() > timeout {
+                    let _ = child.kill();
+                    timed_out = true;
+                    break;
+                }
+                std::thread::sleep(Duration::from_millis(2));
+            }
+        }
+    }
+    let status = child.wait()?;
+    let mut so = String::new();
+    let mut se = String::new();
+    if let Some(mut o) = child.stdout.take() {
+        let mut b = Vec::new();
+        let _ = o.read_to_end(&mut b);
+        so = String::from_utf8_lossy(&b).to_string();
+    }
+    if let Some(mut e) = child.stderr.take() {
+        let mut b = Vec::new();
+        let _ = e.read_to_end(&mut b);
+        se = String::from_utf8_lossy(&b).to_string();
+    }
+    Ok(Ran { code: status.code(), stdout: so, stderr: se, timed_out })
+}
+
+/// Oracle for "non-empty even-length hexadecimal text": Some(bytes) when valid.
+pub fn hex_text(content: &[u8]) -> Option<Vec<u8>> {
+    let s = std::str::from_utf8(content).ok()?;
+    let digits: Vec<char> = s.chars().filter(|c| !matches!(c, ' ' | '\n' | '\t' | '\r')).collect();
+    if digits.is_empty() || digits.len() % 2 != 0 || !digits.iter().all(|c| c.is_ascii_hexdigit()) {
+        return None;
+    }
+    let t: String = digits.into_iter().collect();
+    crate::util::unhex(&t.to_lowercase())
+}
+
+pub fn vcodec_of(name: &str) -> Option<u8> {
+    match name.to_lowercase().as_str() {
+        "h264" | "h.264" | "avc" => Some(H264),
+        "h265" | "h.265" | "hevc" => Some(H265),
+        "av1" => Some(AV1),
+        "vp9" => Some(VP9),
+        _ => None,
+    }
+}
+
+pub fn acodec_of(name: &str) -> Option<u8> {
+    match name.to_lowercase().as_str() {
+        "aac" | "aac-lc" => Some(1),
+        "aac-main" => Some(2),
+        "aac-ssr" => Some(3),
+        "aac-ltp" => Some(4),
+        "aac-he" => Some(5),
+        "aac-hev2" => Some(6),
+        "opus" => Some(7),
+        "none" => Some(0),
+        _ => None,
+    }
+}
+
+pub fn eval(c: &CliCase, obs: &mut Obs) -> Vec<Violation> {
+    let mut out = Vec::new();
+    let dir = format!("/verif/.target/tmp/cli-{}-{:x}", std::process::id(), crate::util::fnv(format!("{:?}", c).as_bytes()));
+    let _ = std::fs::remove_dir_all(&dir);
+    if std::fs::create_dir_all(&dir).is_err() {
+        obs.inconclusive += 1;
+        return out;
+    }
+    let put = |name: &str, f: &Option<FileSpec>| -> Option<String> {
+        f.as_ref().map(|f| {
+            let p = format!("{}/{}", dir, name);
+            if f.exists {
+                let _ = std::fs::write(&p, &f.content);
+            }
+            p
+        })
+    };
+    let vpath = put("video.hex", &c.video);
+    let apath = put("audio.hex", &c.audio);
+    let ipath = put("input.bin", &c.info);
+    let opath = format!("{}/out.mp4", dir);
+    let mut args: Vec<String> = Vec::new();
+    if c.verbose {
+        args.push("--verbose".into());
+    }
+    if c.json {
+        args.push("--json".into());
+    }
+    args.push("--no-progress".into());
+    args.push(c.cmd.clone());
+    match c.cmd.as_str() {
+        "mux" => {
+            if let Some(p) = &vpath {
+                args.extend(["--video".into(), p.clone()]);
+            }
+            if let Some(p) = &apath {
+                args.extend(["--audio".into(), p.clone()]);
+            }
+            args.extend(["--output".into(), opath.clone()]);
+            if let Some(x) = &c.vcodec {
+                args.extend(["--video-codec".into(), x.clone()]);
+            }
+            if let Some(x) = c.width {
+                args.extend(["--width".into(), x.to_string()]);
+            }
+            if let Some(x) = c.height {
+                args.extend(["--height".into(), x.to_string()]);
+            }
+            if let Some(x) = &c.fps {
+                args.extend(["--fps".into(), x.clone()]);
+            }
+            if let Some(x) = &c.acodec {
+                args.extend(["--audio-codec".into(), x.clone()]);
+            }
+            if let Some(x) = c.sample_rate {
+                args.extend(["--sample-rate".into(), x.to_string()]);
+            }
+            if let Some(x) = c.channels {
+                args.extend(["--channels".into(), x.to_string()]);
+            }
+            if let Some(x) = &c.title {
+                args.extend(["--title".into(), x.clone()]);
+            }
+            if let Some(x) = &c.language {
+                args.extend(["--language".into(), x.clone()]);
+            }
+        }
+        "validate" => {
+            if let Some(p) = &vpath {
+                args.extend(["--video".into(), p.clone()]);
+            }
+            if let Some(p) = &apath {
+                args.extend(["--audio".into(), p.clone()]);
+            }
+        }
+        _ => {
+            args.push(ipath.clone().unwrap_or_else(|| format!("{}/missing.bin", dir)));
+        }
+    }
+    let ran = match spawn(&args, Duration::from_secs(20)) {
+        Ok(r) => r,
+        Err(e) => {
+            obs.inconclusive += 1;
+            obs.set("spawn_errors", e.to_string());
+            let _ = std::fs::remove_dir_all(&dir);
+            return out;
+        }
+    };
+    obs.count("processes_spawned", 1);
+    obs.set("exit_codes", format!("{}:{:?}", c.cmd, ran.code));
+    let both = format!("{}\n{}", ran.stdout, ran.stderr);
+    if ran.timed_out {
+        out.push(v(format!("{}|does-not-terminate", c.cmd), format!("{} still running after 20 s", c.brief())));
+        let _ = std::fs::remove_dir_all(&dir);
+        return out;
+    }
+    match c.cmd.as_str() {
+        "mux" => {
+            // library-side expectation
+            let vb = c.video.as_ref().filter(|f| f.exists).and_then(|f| hex_text(&f.content));
+            let ab = c.audio.as_ref().filter(|f| f.exists).and_then(|f| hex_text(&f.content));
+            let vc = c.vcodec.as_deref().map(vcodec_of).unwrap_or(Some(H264));
+            let ac = c.acodec.as_deref().map(acodec_of).unwrap_or(Some(1));
+            let fps: Option<f64> = c.fps.as_ref().and_then(|s| s.parse().ok());
+            let params_ok = c.video.is_some()
+                && vb.is_some()
+                && vc.is_some()
+                && matches!((c.width, c.height), (Some(w), Some(h)) if (320..=4096).contains(&w) && (240..=2160).contains(&h))
+                && fps.map(|f| f > 0.0 && f <= 120.0).unwrap_or(false)
+                && (c.audio.is_none() || (ab.is_some() && matches!(ac, Some(1..=7)) && c.sample_rate.map(|r| (1..=192_000).contains(&r)).unwrap_or(false) && c.channels.map(|n| (1..=8).contains(&n)).unwrap_or(false)));
+            let mut lib_ok = false;
+            let mut lib_bytes = Vec::new();
+            let mut lib_counts = (0u64, 0u64);
+            if params_ok {
+                let mut cfg = Cfg::basic(vc.unwrap());
+                cfg.width = c.width.unwrap();
+                cfg.height = c.height.unwrap();
+                cfg.fps_bits = fps.unwrap().to_bits();
+                if c.audio.is_some() {
+                    cfg.audio = Some(AudioCfg { kind: ac.unwrap(), rate: c.sample_rate.unwrap(), channels: c.channels.unwrap() as u16 });
+                }
+                if c.title.is_some() || c.language.is_some() {
+                    cfg.meta = true;
+                    cfg.title = c.title.clone();
+                    cfg.lang = c.language.clone();
+                }
+                let mut ops = vec![Op::wv(0.0, vb.clone().unwrap(), true)];
+                if let Some(a) = &ab {
+                    if c.audio.is_some() {
+                        ops.push(Op::wa(0.0, a.clone()));
+                    }
+                }
+                ops.push(Op::Finish(FinishKind::FinishStats));
+                let h = History { cfg, ops };
+                let (ex, sink) = crate::exec::run(&h, &crate::exec::ExecOpts::default());
+                lib_ok = matches!(ex.build, Res::Ok) && ex.results.iter().all(|r| r.is_ok());
+                lib_bytes = sink.bytes();
+                if let Some(Res::OkStats(s)) = ex.results.last() {
+                    lib_counts = (s.video_frames, s.audio_frames);
+                }
+            }
+            let completed = both.contains("Muxing complete");
+            if lib_ok {
+                obs.count("mux_valid_cases", 1);
+                if ran.code != Some(0) {
+                    out.push(v("mux|valid-options-but-failure".into(), format!("{} exited with {:?}: {}", c.brief(), ran.code, both.chars().take(300).collect::<String>())));
+                } else {
+                    let file = std::fs::read(&opath).unwrap_or_default();
+                    if file != lib_bytes {
+                        let p = file.iter().zip(lib_bytes.iter()).position(|(a, b)| a != b).unwrap_or(file.len().min(lib_bytes.len()));
+                        out.push(v("mux|file-differs-from-library".into(), format!("{}: CLI file {} bytes, library {} bytes, first difference at {}", c.brief(), file.len(), lib_bytes.len(), p)));
+                    }
+                    // reported counts
+                    let (rv, ra) = if c.json {
+                        let j: serde_json::Value = serde_json::from_str(ran.stdout.trim()).unwrap_or(serde_json::Value::Null);
+                        (j["video_frames"].as_u64(), j["audio_frames"].as_u64())
+                    } else {
+                        let grab = |k: &str| ran.stdout.lines().find_map(|l| l.trim().strip_prefix(k).and_then(|x| x.trim().parse::<u64>().ok()));
+                        (grab("Video frames:"), grab("Audio frames:"))
+                    };
+                    if (rv, ra) != (Some(lib_counts.0), Some(lib_counts.1)) {
+                        out.push(v("mux|reported-counts".into(), format!("{}: CLI reports {:?}/{:?}, library stats {}/{}", c.brief(), rv, ra, lib_counts.0, lib_counts.1)));
+                    }
+                    obs.nontrivial(crate::util::fnv(&file));
+                    obs.count("mux_files_compared", 1);
+                }
+            } else {
+                obs.count("mux_invalid_cases", 1);
+                obs.set("invalid_intents", c.intent.clone());
+                if ran.code == Some(0) {
+                    out.push(v(format!("mux|invalid-but-exit-0|{}", c.intent.split(':').nth(1).unwrap_or("?")), format!("{} exited successfully; output: {}", c.brief(), both.chars().take(300).collect::<String>())));
+                }
+                if completed {
+                    out.push(v(format!("mux|invalid-but-reports-completion|{}", c.intent.split(':').nth(1).unwrap_or("?")), format!("{} printed 'Muxing complete'", c.brief())));
+                }
+                obs.nontrivial(crate::util::fnv(format!("{:?}", c).as_bytes()));
+            }
+        }
+        "validate" => {
+            let ok_file = |f: &Option<FileSpec>| f.as_ref().map(|f| f.exists && hex_text(&f.content).is_some());
+            let want_valid = (c.video.is_some() || c.audio.is_some()) && ok_file(&c.video).unwrap_or(true) && ok_file(&c.audio).unwrap_or(true);
+            let verdict = if c.json {
+                serde_json::from_str::<serde_json::Value>(ran.stdout.trim()).ok().and_then(|j| j["valid"].as_bool())
+            } else if ran.stdout.contains("Validation successful") {
+                Some(true)
+            } else if ran.stdout.contains("Validation failed") {
+                Some(false)
+            } else {
+                None
+            };
+            match verdict {
+                Some(x) if x == want_valid => {}
+                _ => out.push(v(
+                    format!("validate|verdict|expected-{}", if want_valid { "valid" } else { "invalid" }),
+                    format!("{}: verdict {:?}, expected valid={} ; exit {:?} ; output {}", c.brief(), verdict, want_valid, ran.code, both.chars().take(300).collect::<String>()),
+                )),
+            }
+            obs.count("validate_cases", 1);
+            obs.nontrivial(crate::util::fnv(format!("{:?}", c).as_bytes()));
+        }
+        _ => {
+            obs.count("info_cases", 1);
+            obs.nontrivial(crate::util::fnv(format!("{:?}", c).as_bytes()));
+            if c.intent == "valid" {
+                let content = &c.info.as_ref().unwrap().content;
+                let tree = bmff::parse_tree(content);
+                let want: Vec<(String, u64)> = tree.top.iter().map(|b| (b.typ_str(), b.size as u64)).collect();
+                let got: Vec<(String, u64)> = if c.json {
+                    serde_json::from_str::<serde_json::Value>(ran.stdout.trim())
+                        .ok()
+                        .and_then(|j| j["boxes"].as_array().cloned())
+                        .unwrap_or_default()
+                        .iter()
+                        .map(|b| (b["type"].as_str().unwrap_or("?").to_string(), b["size"].as_u64().unwrap_or(0)))
+                        .collect()
+                } else {
+                    ran.stdout
+                        .lines()
+                        .filter_map(|l| {
+                            let l = l.strip_prefix("  ")?;
+                            let (t, rest) = l.split_once(": ")?;
+                            let n = rest.strip_suffix(" bytes")?.parse::<u64>().ok()?;
+                            Some((t.to_string(), n))
+                        })
+                        .collect()
+                };
+                if ran.code != Some(0) || got != want {
+                    out.push(v("info|box-list".into(), format!("{}: info lists {:?}, the file's top-level boxes are {:?} (exit {:?})", c.brief(), got, want, ran.code)));
+                }
+                obs.count("info_lists_compared", 1);
+            }
+        }
+    }
+    let _ = std::fs::remove_dir_all(&dir);
+    out
 }
